@@ -95,6 +95,10 @@ func checkC01(c *Ctx) {
 			c.Sample(map[string]interface{}{"family": "GenCtl", "source": src})
 		}
 	}
+	// programs that are large in one dimension
+	for _, p := range bigPrograms() {
+		compileBoth(c, p.Scripts[0].Name, p, RenderProg(p, Style{R: r}), base, &cases, &rejected)
+	}
 	// whole files whose commands and AutoVar conditions carry inline text / moves()
 	nf := 60
 	if !c.Quick() {
